@@ -176,6 +176,8 @@ pub enum FaultKind {
     EmptyCompletion,
     /// the i-th of a list of well-formed packets, used only where it lies outside the exchange's reply set
     Unexpected(u8),
+    /// not a fault: the terminal pauses this many seconds before this packet and then carries on normally
+    Pause(u32),
 }
 
 /// Well-formed packets a terminal could send; each is a fault only where the reply set does not contain it.
@@ -696,6 +698,8 @@ async fn passive(shared: &SharedRef, io: &mut DuplexStream, conn: usize) {
 
 enum TxAction {
     Send,
+    /// send after a pause of this many virtual milliseconds
+    SendAfter(u64),
     Fault(FaultKind),
 }
 
@@ -734,6 +738,9 @@ fn next_tx_action(sh: &mut Shared, cmd: Cmd, reply_idx: usize, conn: usize) -> T
             let kind = f.kind;
             if matches!(f.at, At::PointOnce(..)) {
                 sh.fired.push(fi);
+            }
+            if let FaultKind::Pause(secs) = kind {
+                return TxAction::SendAfter(secs as u64 * 1000);
             }
             return TxAction::Fault(kind);
         }
@@ -799,7 +806,16 @@ async fn serve(shared: SharedRef, mut io: DuplexStream, conn: usize) {
         let n = script.len();
         for (i, p) in script.iter().enumerate() {
             let action = next_tx_action(&mut shared.lock().unwrap(), cmd, i, conn);
+            let action = match action {
+                TxAction::SendAfter(ms) => {
+                    shared.lock().unwrap().ev(conn, Dir::Note(format!("pause {ms} ms")), &[]);
+                    tokio::time::sleep(std::time::Duration::from_millis(ms)).await;
+                    TxAction::Send
+                }
+                a => a,
+            };
             match action {
+                TxAction::SendAfter(_) => unreachable!(),
                 TxAction::Send => {
                     if i + 1 == n && silent_ms > 0 {
                         tokio::time::sleep(std::time::Duration::from_millis(silent_ms)).await;
@@ -859,7 +875,7 @@ async fn serve(shared: SharedRef, mut io: DuplexStream, conn: usize) {
                         FaultKind::Unexpected(i) => {
                             let _ = io.write_all(UNEXPECTED[i as usize % UNEXPECTED.len()]).await;
                         }
-                        FaultKind::Silence | FaultKind::Refuse | FaultKind::ConnectStall => {}
+                        FaultKind::Silence | FaultKind::Refuse | FaultKind::ConnectStall | FaultKind::Pause(_) => {}
                     }
                     passive(&shared, &mut io, conn).await;
                     return;
